@@ -586,8 +586,48 @@ class Interp:
                 base.items[k] = v
                 return
         if isinstance(base, Arr2):
+            self._store_row(base, idx, v)
             return
         self.heap[(nf.key(self.to_nf(base)), nf.key(self.to_nf(idx)))] = v
+
+    def _store_row(self, arr, idx, v):
+        """arr[level, <all | j | a:>] = v with a constant level: keep the row as an explicit vector"""
+        if not (isinstance(idx, TupV) and len(idx.items) == 2 and isinstance(idx.items[0], Num)):
+            return
+        lev, col = idx.items
+        if nf.as_int(lev.nf) is None:
+            return
+        k = nf.key(lev.nf)
+        old = arr.rows.get(k)
+        ncol = arr.shape[1]
+        if _is_slice(col):
+            lo, hi = _slice_bounds(col)
+            if lo is False or hi is not None or (lo or 0) < 0 or (lo or 0) > 4:
+                arr.rows.pop(k, None)
+                return
+            lo = lo or 0
+            if isinstance(v, Vec):
+                new = Vec(nf.subst_sym(v.gen, {J: nf.sub(nf.sym(J), nf.const(lo))}), ncol, {})
+                for _kk, (pos, x) in v.over.items():
+                    np_ = nf.add(pos, nf.const(lo))
+                    new.over[nf.key(np_)] = (np_, x)
+            else:
+                new = Vec(self.to_nf(v), ncol, {})
+            for j in range(lo):  # positions before the slice keep what was there
+                pj = nf.const(j)
+                if old is not None:
+                    new.over[nf.key(pj)] = (pj, old.at(pj))
+                else:
+                    new.over[nf.key(pj)] = (pj, nf.sym("<uninitialised>"))
+            arr.rows[k] = new
+            return
+        if isinstance(col, Num) and nf.as_int(col.nf) is not None:
+            j = nf.as_int(col.nf)
+            if old is None:
+                old = Vec(nf.sym("<uninitialised>"), ncol, {})
+            pos = old.norm_pos(j)
+            old.over[nf.key(pos)] = (pos, self.to_nf(v))
+            arr.rows[k] = old
 
     # ------------------------------------------------------------------ decisions
     def decide(self, t, node):
@@ -1335,6 +1375,9 @@ class Interp:
             if meth in ("copy", "astype", "to_records", "to_numpy", "flatten", "ravel", "tolist", "reset_index"):
                 return recv.copy() if isinstance(recv, Vec) else recv
             if meth in ("sum", "min", "max", "mean", "cumsum", "prod", "any", "all") and not isinstance(recv, TupV):
+                if "axis" in kwargs and not args:
+                    args = [kwargs["axis"]]
+                    kwargs = {k: v for k, v in kwargs.items() if k != "axis"}
                 extra = [nf.fn("kw:" + k, self.to_nf(v)) for k, v in sorted(kwargs.items())]
                 return Num(nf.fn(meth, self.to_nf(recv), *[self.to_nf(a) for a in args], *extra))
         if isinstance(recv, TupV) and recv.is_list:
@@ -1502,7 +1545,22 @@ def _h_fn(name, sort=False):
     return h
 
 
+def _h_clip(it, args, kwargs, bound, node, qual):
+    """np.clip(a, None, hi) == np.minimum(a, hi); np.clip(a, lo, None) == np.maximum(a, lo)"""
+    a, lo, hi = bound.get("a"), bound.get("a_min", bound.get("min")), bound.get("a_max", bound.get("max"))
+    if a is not None and isinstance(lo, NoneV) and hi is not None and not isinstance(hi, NoneV):
+        return _h_fn("minimum", sort=True)(it, [a, hi], {}, {}, node, "numpy.minimum")
+    if a is not None and isinstance(hi, NoneV) and lo is not None and not isinstance(lo, NoneV):
+        return _h_fn("maximum", sort=True)(it, [a, lo], {}, {}, node, "numpy.maximum")
+    if a is not None and lo is not None and hi is not None:
+        return _h_fn("clip")(it, [a, lo, hi], {}, {}, node, qual)
+    return _h_fn("clip")(it, args, kwargs, bound, node, qual)
+
+
 def _h_sum(it, args, kwargs, bound, node, qual):
+    if "axis" in kwargs and len(args) == 1:
+        args = list(args) + [kwargs["axis"]]
+        kwargs = {k: v for k, v in kwargs.items() if k != "axis"}
     if len(args) == 1 and isinstance(args[0], TupV):
         acc = {}
         for a in args[0].items:
@@ -1735,7 +1793,7 @@ _EXT_HANDLERS = {
     "abs": _h_fn("abs"),
     "numpy.minimum": _h_fn("minimum", sort=True),
     "numpy.maximum": _h_fn("maximum", sort=True),
-    "numpy.clip": _h_fn("clip"),
+    "numpy.clip": _h_clip,
     "max": _h_fn("max", sort=True),
     "min": _h_fn("min", sort=True),
     "sum": _h_bsum,
